@@ -15,15 +15,21 @@ TReset == /\ Ev("reset") /\ UNCHANGED <<hvars, bad>> /\ mon' = <<>> /\ w' = <<>>
 
 (* ---- health monitors ---- *)
 TMonNew == /\ Ev("mon.new") /\ UNCHANGED <<hvars, bad, w, pend, policy, cfgT>>
-           /\ mon' = (E.id :> [mf |-> E.max_failed, ok |-> FALSE, consec |-> 0, expect |-> "none"]) @@ mon
+           /\ mon' = (E.id :> [mf |-> E.max_failed, ok |-> FALSE, consec |-> 0, expect |-> "none", ans |-> -1]) @@ mon
+\* an http backend answered a probe with this status (logged by the backend before the answer is written)
+TMonAnswer == /\ Ev("mon.answer") /\ Has(mon, E.id) /\ UNCHANGED <<hvars, bad, w, pend, policy, cfgT>>
+              /\ mon' = [mon EXCEPT ![E.id].ans = E.status]
 TProbe ==
   /\ Ev("mon.probe") /\ Has(mon, E.id) /\ UNCHANGED <<hvars, w, pend, policy, cfgT>>
   /\ LET m == mon[E.id] IN
-     /\ Flag(m.expect = "none", "health status change was not reported (callback missing)")
+     /\ bad' = bad
+          \cup (IF m.expect = "none" THEN {} ELSE {<<"health status change was not reported (callback missing)", l>>})
+          \cup (IF m.ans = -1 \/ E.ok = (m.ans \div 100 = 2) THEN {}
+               ELSE {<<"http probe counted against the rule: exactly the 2xx answers are successes", l>>})
      /\ mon' = [mon EXCEPT ![E.id] =
-          IF E.ok THEN [m EXCEPT !.consec = 0, !.ok = TRUE, !.expect = IF m.ok THEN "none" ELSE "ok"]
-          ELSE IF m.ok /\ m.consec + 1 >= m.mf THEN [m EXCEPT !.consec = @ + 1, !.ok = FALSE, !.expect = "failed"]
-          ELSE [m EXCEPT !.consec = @ + 1, !.expect = "none"]]
+          IF E.ok THEN [m EXCEPT !.consec = 0, !.ok = TRUE, !.expect = IF m.ok THEN "none" ELSE "ok", !.ans = -1]
+          ELSE IF m.ok /\ m.consec + 1 >= m.mf THEN [m EXCEPT !.consec = @ + 1, !.ok = FALSE, !.expect = "failed", !.ans = -1]
+          ELSE [m EXCEPT !.consec = @ + 1, !.expect = "none", !.ans = -1]]
 TMonStatus ==
   /\ Ev("mon.status") /\ Has(mon, E.id) /\ UNCHANGED <<hvars, w, pend, policy, cfgT>>
   /\ Flag(mon[E.id].expect = (IF E.ok THEN "ok" ELSE "failed"),
@@ -100,7 +106,7 @@ TVListening ==
          got == {E.ports[i] : i \in 1..Len(E.ports)}
          \* two visitors configured on the same port: one of them holds it - still that port listens
      IN Flag(got = want, "listening visitor ports differ from the configured visitors whose port is free (removed / changed visitor still there, or configured one not started)")
-TNext == TVUpdate \/ TVHeld \/ TVListening \/ TCloseAll \/ TReset \/ TMonNew \/ TProbe \/ TMonStatus \/ TUpdate \/ TMsg \/ TReply \/ TStatus \/ TSettled
+TNext == TMonAnswer \/ TVUpdate \/ TVHeld \/ TVListening \/ TCloseAll \/ TReset \/ TMonNew \/ TProbe \/ TMonStatus \/ TUpdate \/ TMsg \/ TReply \/ TStatus \/ TSettled
 TSpec == TInit /\ [][TNext]_tvars
 NoMismatch == bad = {}
 HWM == TLCSet(1, IF TLCGet(1) < l THEN l ELSE TLCGet(1))
